@@ -140,12 +140,22 @@ def check_eager_binding(rep, rule):
             return None
         it = SetInterp(uni, model=model)
         try:
+            # backward slice from the 4th argument: execute only the simple assignments it (transitively) depends on
+            need = set(n.id for n in ast.walk(c.args[3]) if isinstance(n, ast.Name))
+            prior = []
             for s in stmts_of(bi.node):
                 if s is mk[0]:
                     break
-                if isinstance(s, (ast.Assign, ast.AugAssign)) and any(isinstance(n, ast.Name) and n.id in ('src_provides_map', 'provided')
-                                                                      for n in ast.walk(s)):
-                    it.exec_stmt(s)
+                prior.append(s)
+            chosen = []
+            for s in reversed(prior):
+                if isinstance(s, (ast.Assign, ast.AugAssign)):
+                    tg = s.targets[0] if isinstance(s, ast.Assign) else s.target
+                    if isinstance(tg, ast.Name) and tg.id in need:
+                        chosen.append(s)
+                        need |= set(n.id for n in ast.walk(s.value) if isinstance(n, ast.Name))
+            for s in reversed(chosen):
+                it.exec_stmt(s)
             got = it.eval(c.args[3])
         except Unmodelled as e:
             raise AnalysisError('BoundRoute.__init__ provided set: %s' % e)
